@@ -41,6 +41,12 @@ theorem C01_frame_consumed (pr : K → Tok K) (hpr : ∀ x, toFloat (pr x) = .ok
     Impl.readFrame nd (Spec.emitFrame pr nd f ++ rest) = .ok (some (Spec.expected nd f, rest)) :=
   readFrame_emitFrame pr hpr f hwf rest nd hnd
 
+/-- the `while True` loop of the wrapper is modelled with fuel `length + 1`; this is adequate for EVERY file, well-formed
+or not: each successful `readFrame` consumes at least one line, so more iterations never change the result -/
+theorem C01_fuel_adequate (nd : ℕ) (ls : Lines K) (k : ℕ) :
+    Impl.readAllFuel nd (ls.length + 1 + k) ls = Impl.readAll nd ls :=
+  readAllFuel_irrelevant nd _ _ ls (by omega) (by omega)
+
 /-- in a well-formed frame every id 1..N is carried by exactly one atom line, wherever it stands in the file:
 `Spec.expected` never falls back to its default, and the line it picks is the only one with that id -/
 theorem C01_per_id (f : FrameSpec K) (hwf : Spec.WF f) (k : ℕ) (hk : k < f.atoms.length) :
